@@ -44,7 +44,10 @@ def variant_font(rng, nglyphs):
         tag = "".join(rng.choice("ABCDEFGHIJKLMNOPQRSTUVWXYZ") for _ in range(2)) + "%02d" % k
         extra[tag.encode()] = bytes(rng.getrandbits(8) for _ in range(rng.choice([1, 2, 3, 4, 5, 7, 16, 33, 100])))
     plats = [(1, 0, 0), (3, 1, 1033)]
-    if rng.random() < 0.4:
+    symbol = rng.random() < 0.2
+    if symbol:
+        plats = [(1, 0, 0), (3, 0, 1033)]      # a symbol font: Microsoft names (and cmap) under encoding 0, nothing under (3,1)
+    if rng.random() < 0.4 and not symbol:
         plats.append((0, 3, 0))
     if rng.random() < 0.3:
         plats.append((3, 1, 1036))
@@ -63,7 +66,9 @@ def variant_font(rng, nglyphs):
     if rng.random() < 0.5:
         order = [b"OS/2", b"cmap", b"glyf", b"head", b"hhea", b"hmtx", b"loca", b"maxp", b"name", b"post"] + list(extra)
         rng.shuffle(order)
-    return ttf.build_font(glyphs, cmap, names=names, extra_tables=extra, order=order, cmap12=rng.random() < 0.2)
+    if symbol:
+        cmap = {(0xF000 + c): g for c, g in cmap.items()}
+    return ttf.build_font(glyphs, cmap, names=names, extra_tables=extra, order=order, cmap12=(rng.random() < 0.2 and not symbol), symbol=symbol)
 
 
 def tables_of(path):
